@@ -3,8 +3,8 @@
     lemma proved elsewhere, with [Print Assumptions] beneath.  bin/pqv
     re-checks every statement with [Check (name : forall ..., statement)] and
     every [Print Assumptions] on each run. *)
-From PQV Require Import AbsPQProofs AbsCostProofs ListProofs IterProofs UnwindProofs HashIndep GhostIndep Final EqRel ClearDrop Refine.
-From PQV Require Export PropSpec RefineSpec.
+From PQV Require Import AbsPQProofs AbsCostProofs ListProofs IterProofs UnwindProofs HashIndep GhostIndep Final EqRel ClearDrop Refine RefineDet.
+From PQV Require Export PropSpec RefineSpec RefineDet.
 
 (* C01 *)
 Theorem C01_invariant : forall (I P : Type) (keq : I -> I -> bool) (hash : I -> N) (ple : P -> P -> bool) (peq : P -> P -> bool) (alloc_limit : N), run_good_stmt keq hash ple peq alloc_limit.
@@ -385,3 +385,18 @@ Print Assumptions C02_history_refines_minmax_spec.
 Theorem C11_history_refines_spec : forall (I P : Type) (keq : I -> I -> bool) (hash : I -> N) (ple : P -> P -> bool), refine_run_stmt keq hash ple.
 Proof. intros; apply @Refine.refine_run_closed. Qed.
 Print Assumptions C11_history_refines_spec.
+
+(* C03 *)
+Theorem C03_spec_tight_step : forall (I P : Type) (keq : I -> I -> bool) (hash : I -> N) (ple : P -> P -> bool), spec_step_det_stmt keq hash ple.
+Proof. intros; apply @RefineDet.spec_step_det_closed. Qed.
+Print Assumptions C03_spec_tight_step.
+
+(* C03 *)
+Theorem C03_spec_tight_run : forall (I P : Type) (keq : I -> I -> bool) (hash : I -> N) (ple : P -> P -> bool), spec_run_det_stmt keq hash ple.
+Proof. intros; apply @RefineDet.spec_run_det_closed. Qed.
+Print Assumptions C03_spec_tight_run.
+
+(* C18 *)
+Theorem C18_tie_free_outputs_from_map_alone : forall (I P : Type) (keq : I -> I -> bool) (hash : I -> N) (ple : P -> P -> bool), spec_run_det_stmt keq hash ple.
+Proof. intros; apply @RefineDet.spec_run_det_closed. Qed.
+Print Assumptions C18_tie_free_outputs_from_map_alone.
